@@ -88,6 +88,12 @@ func run(c *fw.Ctx, idx int) {
 		release int // instruction index at which to release; -1 = at the end
 	}
 	var holds []*hold
+	var special *struct {
+		key   string
+		ch    chan struct{}
+		fail  bool
+		armed bool
+	}
 	callN := map[string]uint64{}
 	var step int64
 	var noHold int32
@@ -102,6 +108,15 @@ func run(c *fw.Ctx, idx int) {
 		mu.Lock()
 		defer mu.Unlock()
 		ks := call.Cid.KeyString()
+		if special != nil && special.armed && call.Op == "unpin" && ks == special.key {
+			// the one call of a concurrent pair: held until the driver releases it
+			special.armed = false
+			d := sim.Decision{Hold: special.ch}
+			if special.fail {
+				d.Err = fmt.Errorf("ipfs model: scripted failure of the held unpin")
+			}
+			return d
+		}
 		k := call.Op + ks
 		callN[k]++
 		h := mix(salt, uint64(len(call.Op)), uint64(ks[len(ks)-1]), uint64(ks[len(ks)-2]), callN[k])
@@ -168,6 +183,59 @@ func run(c *fw.Ctx, idx int) {
 		ci := cids[in.c]
 		before := rig.T.Status(ctx, ci).Status
 		var err error
+		// a concurrent pair: the item is re-allocated elsewhere (the tracker's
+		// best-effort unpin is held inside the daemon) and removed from the
+		// pinset at the same time; the held unpin then fails or succeeds
+		if in.c != 3 && r.Chance(1, 14) && atomic.LoadInt32(&healthy) == 0 {
+			pin := api.PinCid(ci)
+			pin.Name = fmt.Sprintf("i%d", i)
+			pin.ReplicationFactorMin, pin.ReplicationFactorMax = 1, 1
+			pin.Allocations = []peer.ID{other}
+			rig.St.Add(ctx, pin)
+			mu.Lock()
+			special = &struct {
+				key   string
+				ch    chan struct{}
+				fail  bool
+				armed bool
+			}{key: ci.KeyString(), ch: make(chan struct{}), fail: r.Bool(), armed: true}
+			sp := special
+			mu.Unlock()
+			c.Journal("%d track-remote c%d || untrack (held unpin fails=%v)", i, in.c, sp.fail)
+			done := make(chan error, 1)
+			atomic.StoreInt32(&noHold, 1) // only the one scripted hold during the pair
+			go func() { done <- rig.T.Track(ctx, pin) }()
+			// wait until the unpin sits in the daemon (or the Track returned without one)
+			arrived := false
+			for w := 0; w < 400 && !arrived; w++ {
+				mu.Lock()
+				arrived = !sp.armed
+				mu.Unlock()
+				select {
+				case e := <-done:
+					done <- e
+					w = 400
+				default:
+				}
+				if !arrived {
+					time.Sleep(time.Millisecond)
+				}
+			}
+			rig.St.Rm(ctx, ci)
+			uerr := rig.T.Untrack(ctx, ci)
+			close(sp.ch)
+			<-done
+			atomic.StoreInt32(&noHold, 0)
+			mu.Lock()
+			special = nil
+			mu.Unlock()
+			tracked[in.c] = false
+			in.kind = "untrack"
+			last[in.c] = in
+			trace = append(trace, fmt.Sprintf("%d track-remote c%d || untrack (held unpin arrived=%v fails=%v) -> untrack err=%v", i, in.c, arrived, sp.fail, uerr))
+			c.Cover(fmt.Sprintf("pair/remote-track+untrack/arrived=%v/fails=%v", arrived, sp.fail))
+			continue
+		}
 		switch {
 		case strings.HasPrefix(in.kind, "track"):
 			pin := api.PinCid(ci)
